@@ -10,7 +10,7 @@ CLAIM = dict(
          'invariant u = q*v + r, the variant (deg r strictly decreases), at most deg u - deg v + 1 steps, final deg r < deg v or r = 0, zero/empty divisor rejected without '
          'iterating, never "exceeded maximum iterations", termination; with the switches set to the code before the repair TLC exhibits the StepBound and NeverGivesUp '
          'counterexamples. Every (u, v) of the model and recorded runs of the real code for all (len u, len v) in 0..11 x 0..7 are validated: over Rat (and f64 runs whose '
-         'arithmetic is exact) TLC checks u = q*v + r, the degree condition and equality with the machine\'s (q, r) exactly; for general f64 (coefficient ratios up to 1e6) '
+         'arithmetic is exact, and Complex<f64> on Gaussian integers with divisor lead 1, -1, i, -i) TLC checks u = q*v + r, the degree condition and equality with the machine\'s (q, r) exactly; for general f64 (coefficient ratios up to 1e6) '
          'and Complex<f64> the outcome must be Ok with deg r < deg v or r = 0 and identity residual <= 16*(deg u+1) units of eps*(||u||inf + ||q||1*||v||inf) (double-double).',
     note='Exact part decided by TLC on reduced rationals. Float part: the residual is measured by the harness in double-double; the guard 16*(deg u+1) is an a-priori bound '
          '(each coefficient of r is updated at most deg u - deg v + 1 times, each update commits at most 2 rounding errors of relative size eps/2 on quantities bounded by '
@@ -29,6 +29,12 @@ def _stamp(c, n):
         if ty == 'f64x' and d['v'] and abs(d['v'][-1]) not in (0, 1, 2):
             continue
         out.append(d)
+    # Complex<f64> with the divisor multiplied by i (or -i): leading coefficient +-i when |lc(v)| = 1 -> exact over Gaussian integers
+    v = ints(c['v'])
+    if not v or abs(v[-1]) <= 1:
+        sg = 1 if (sum(v) + len(c['u'])) % 2 == 0 else -1
+        u = ints(c['u'])
+        out.append(dict(suite='polydiv', ty='cxg', u=u, ui=list(reversed(u)), v=[0] * len(v), vi=[sg * x for x in v]))
     return out
 
 
@@ -42,7 +48,7 @@ def check(ctx):
         ctx.tlc_mc('MC_PolyDiv', 'MC_PolyDiv_orig.cfg', label='exact arithmetic, algorithm before the repair (relies on exact cancellation): conforms in exact arithmetic')
     ctx.tlc_mc('MC_PolyDiv', 'MC_PolyDiv_D7_step.cfg', expect_violation='StepBound', label='D7 at design level: rounding residue, leading term not cleared -> a second pass at the same degree')
     ctx.tlc_mc('MC_PolyDiv', 'MC_PolyDiv_D7_giveup.cfg', expect_violation='NeverGivesUp', label='D7 at design level: err_max_iter reached for a divisor with nonzero leading coefficient')
-    nt = lambda e: bool(e.get('panic') or e.get('degu', 0) >= 0 or e.get('u'))
+    nt = lambda e: bool(e.get('panic') or e.get('degu', -1) >= 0 or e.get('u'))
     gen = ctx.tlc_cases('MC_PolyDiv', 'Gen_PolyDiv_quick.cfg' if q else 'Gen_PolyDiv.cfg', transform=_stamp, name='gen_polydiv')
     ev = ctx.exec('polydiv', gen)
     ctx.validate('Trace_PolyDiv', ev, gen, 'polydiv', nontrivial=nt)
@@ -66,6 +72,8 @@ def check(ctx):
     return ctx.finish(
         rule='cases: (i) every (u, v) of the TLC model on Polynomial<Rat> and (exact) Polynomial<f64>; (ii) for every (len u, len v) in 0..11 x 0..7 random integer '
              'polynomials whose exact division stays within 16-bit numerators (Rat / exact f64 alternating); (iii) rational coefficients; (iv) zero/empty divisors and '
-             'dividends; (v) general f64 / Complex<f64> coefficients with magnitudes 1e-3..1e3, the input of D7 included. One event per call; distinct = distinct '
+             'dividends; (v) general f64 / Complex<f64> coefficients with magnitudes 1e-3..1e3, the input of D7 included; '
+             '(vi) special exact values: Complex divisors with leads of modulus 1 (i, -i, -1, 1, (3+4i)/5, (-4+3i)/5, (5+12i)/13), Gaussian-integer data (exact), monomial '
+             'divisors c*x^m for m = 0..deg u+3, constant divisors, 0 / 1 / -1 forced into the constant, an inner and the leading position of u and v. One event per call; distinct = distinct '
              '(operands, outcome) / (degrees, outcome, units).',
         trusted=['harness residual measurement in double-double (harness/src/suites/polydiv.rs, dd.rs)', 'TLC', 'PolyDiv.tla / Poly.tla'])
